@@ -254,6 +254,24 @@ fn asan_bin(env: &Env) -> String {
     std::env::var("RITI_ASAN_BIN").unwrap_or_else(|_| format!("{}/.cache/target-asan/x86_64-unknown-linux-gnu/release/riti-sim", env.paths.verif))
 }
 
+/// The same simulator without the sanitizer (this very binary): the system allocator re-uses
+/// freed addresses at once, which AddressSanitizer's quarantine never does, and only the
+/// counting allocator and the C = Rust comparisons judge.
+fn plain_bin() -> String {
+    std::env::current_exe().ok().and_then(|p| p.to_str().map(|s| s.to_string())).unwrap_or_else(|| die("current_exe"))
+}
+
+const PLAIN: &str = "plain-allocator/";
+
+/// One life cycle alone in a fresh child of the build that reported `clause_hint`.
+fn judge_any(asan: &str, clause_hint: &str, dir: &str, tag: &str, index: u64, plan: &FPlan) -> Option<(String, String, usize)> {
+    if clause_hint.starts_with(PLAIN) {
+        judge_single(&plain_bin(), dir, tag, index, plan).map(|(c, d, o)| (format!("{}{}", PLAIN, c), d, o))
+    } else {
+        judge_single(asan, dir, tag, index, plan)
+    }
+}
+
 pub fn cmd_replay(env: &Env, path: &str, rep: &FReplay) -> i32 {
     let bin = asan_bin(env);
     let dir = format!("{}/.cache/ffi", env.paths.verif);
@@ -261,7 +279,7 @@ pub fn cmd_replay(env: &Env, path: &str, rep: &FReplay) -> i32 {
     for (i, op) in rep.plan.ops.iter().enumerate() {
         println!("#{:<3} {:?}", i, op);
     }
-    match judge_single(&bin, &dir, &format!("replay-{}", std::process::id()), rep.run_index, &rep.plan) {
+    match judge_any(&bin, &rep.clause, &dir, &format!("replay-{}", std::process::id()), rep.run_index, &rep.plan) {
         Some((clause, detail, _)) => {
             println!("clause: {}", clause);
             println!("detail: {}", detail);
@@ -366,6 +384,35 @@ pub fn cmd_run(env: &Arc<Env>, tier: &str, args: &[String]) -> i32 {
                 if found.is_none() {
                     found = Some((start, plans[0].1.clone(), "unattributed".into(), "a child failed but no single life cycle reproduces it".into(), 0));
                 }
+            } else if (start / chunk) % 2 == 0 {
+                // half of the chunks: the same life cycles once more under the system
+                // allocator (no sanitizer)
+                let plain = plain_bin();
+                let r2 = run_child(&plain, &dir, &format!("{}p", tag), plans.clone());
+                if let Some((clause, detail, op)) = classify(&r2, 0) {
+                    let idx = r2.out.as_ref().and_then(|o| o.violation.as_ref().map(|v| v.0)).or(r2.crumb);
+                    let clause = format!("{}{}", PLAIN, clause);
+                    match idx.and_then(|i| plans.iter().find(|(j, _)| *j == i)) {
+                        Some((i, p)) => found = Some((*i, p.clone(), clause, detail, op)),
+                        None => {
+                            for (i, p) in &plans {
+                                if let Some((c, d, o)) = judge_any(&bin, &clause, &dir, &format!("{}-ps{}", tag, i), *i, p) {
+                                    found = Some((*i, p.clone(), c, d, o));
+                                    break;
+                                }
+                            }
+                        }
+                    }
+                    if found.is_none() {
+                        found = Some((start, plans[0].1.clone(), "unattributed".into(), "a child under the system allocator failed but no single life cycle reproduces it".into(), 0));
+                    }
+                }
+                if let Some(o) = &r2.out {
+                    let mut a = agg.lock().unwrap();
+                    a.balance += o.balance_checked;
+                    a.evaluations += o.evaluations;
+                    *a.counters.entry("lifecycles_also_under_the_system_allocator".into()).or_insert(0) += o.lifecycles;
+                }
             }
             let mut a = agg.lock().unwrap();
             if let Some(o) = &r.out {
@@ -405,7 +452,7 @@ pub fn cmd_run(env: &Arc<Env>, tier: &str, args: &[String]) -> i32 {
         }
         // confirm alone in a fresh child, then minimise by re-running children on sub-plans
         let tag = format!("{}-min", std::process::id());
-        let confirmed = judge_single(&bin, &dir, &tag, index, &plan);
+        let confirmed = judge_any(&bin, &clause, &dir, &tag, index, &plan);
         let (mut best, mut best_v) = match confirmed {
             Some((c, d, o)) if c == clause => (plan.clone(), (c, d, o)),
             other => die(&format!("life cycle {} reported {} but alone in a fresh child it gives {:?}", index, clause, other.map(|x| x.0))),
@@ -425,7 +472,7 @@ pub fn cmd_run(env: &Arc<Env>, tier: &str, args: &[String]) -> i32 {
                 let mut p = best.clone();
                 p.ops.drain(i..end);
                 execs += 1;
-                match judge_single(&bin, &dir, &tag, index, &p) {
+                match judge_any(&bin, &clause, &dir, &tag, index, &p) {
                     Some((c, d, o)) if c == clause => {
                         best = p;
                         best_v = (c, d, o);
